@@ -134,7 +134,9 @@ def gen_value(rng, name, marker):
         for p in rng.sample(menu, rng.randint(0, 4)):
             parts.append(p)
         rng.shuffle(parts)
-        return "recur", ["recur_pairs", parts]
+        # how a caller writes the rule: lists everywhere, bare values for single items (the common way:
+        # {'freq': 'weekly', 'count': 3}), or a plain dict handed to add()
+        return "recur", ["recur_pairs", parts, rng.choice(["lists", "scalars", "dict-scalars"])]
     if u in ("DURATION",):
         return "td", _td(rng)
     if u == "TRIGGER":
@@ -382,7 +384,7 @@ def permute(trace, seed):
             if a["v"][0] == "recur_pairs":
                 p = list(a["v"][1])
                 g.shuffle(p)
-                a["v"] = ["recur_pairs", p]
+                a["v"] = ["recur_pairs", p] + list(a["v"][2:])
     return out, moved
 
 
@@ -401,7 +403,11 @@ class Built:
 def _value(spec):
     if spec[0] == "recur_pairs":
         from icalendar.prop import vRecur
-        return vRecur(dict((k, list(v)) for k, v in spec[1]))
+        mode = spec[2] if len(spec) > 2 else "lists"
+        if mode == "lists":
+            return vRecur(dict((k, list(v)) for k, v in spec[1]))
+        d = dict((k, (v[0] if len(v) == 1 else list(v))) for k, v in spec[1])
+        return vRecur(d) if mode == "scalars" else d
     if spec[0] == "geo":
         return (spec[1], spec[2])
     return to_py(spec)
@@ -799,4 +805,4 @@ def simplify_step(step):
         if a["v"][0] == "recur_pairs" and len(a["v"][1]) > 1:
             for i in range(len(a["v"][1])):
                 if a["v"][1][i][0] != "FREQ":
-                    yield [c, op, dict(a, v=["recur_pairs", a["v"][1][:i] + a["v"][1][i + 1:]])]
+                    yield [c, op, dict(a, v=["recur_pairs", a["v"][1][:i] + a["v"][1][i + 1:]] + list(a["v"][2:]))]
